@@ -589,6 +589,51 @@ func runC14(p *an.Prog, r *an.Run, tier string) {
 			walk(rcv)
 		}
 	}
+	// wherever a default Client is put into a field, that is under "the field is nil" (independent of how the call site
+	// reads it afterwards)
+	for _, fn := range p.Repo {
+		if fn.Pkg == nil || fn.Pkg.Pkg.Path() != pkgRPC || p.IsTestFunc(fn) {
+			continue
+		}
+		an.AllInstrs(fn, func(in ssa.Instruction) {
+			st, ok := in.(*ssa.Store)
+			if !ok {
+				return
+			}
+			fa, ok := st.Addr.(*ssa.FieldAddr)
+			if !ok {
+				return
+			}
+			v := st.Val
+			if mi, ok := v.(*ssa.MakeInterface); ok {
+				v = mi.X
+			}
+			al, ok := v.(*ssa.Alloc)
+			if !ok {
+				return
+			}
+			if n := namedOf(al.Type()); n == nil || n.Obj().Name() != "Client" || n.Obj().Pkg() == nil || n.Obj().Pkg().Path() != pkgRPC {
+				return
+			}
+			if root, _ := an.RootPath(fa); root != nil {
+				if _, isPrm := root.(*ssa.Parameter); !isPrm {
+					return // a connection under construction
+				}
+			}
+			fld := an.FieldOf(fa)
+			okNil := false
+			for _, cr := range ctrlRels(st.Block()) {
+				for _, pair := range [][2]ssa.Value{{cr.L, cr.R}, {cr.R, cr.L}} {
+					if f2 := an.FieldOf(stripLoad(pair[0])); f2 != nil && f2 == fld && isNilValue(pair[1]) && cr.Op == token.EQL {
+						okNil = true
+					}
+				}
+			}
+			if !okNil {
+				bad = append(bad, an.FuncName(fn)+" installs a fresh Client at "+p.Pos(st.Pos())+" without the field having been found nil: an existing client (and its id counter) is replaced, or a missing one never created")
+			}
+		})
+	}
 	r.Check(len(bad) == 0, "unique-id", an.FuncName(creq), creq.Pos(), "ids = atomic counter per client", "%s", strings.Join(dedup(bad), "; "))
 
 	// ---- handler-not-gated: between receiving a request and running its handler nothing may wait on another
